@@ -208,6 +208,28 @@ def main(tier, rep):
                 e2 = observe(sd, comp, decomp if g["wrap"] else (lambda b: b), inner, cv, g["wrap"], cyclic=True)
                 evs.append(e2)
                 pts.append((dict(g, cls="cyclic"), "<self-referential>"))
+        if gi % 13 == 0:
+            # a value the serializer refuses (it holds a lambda), then -- on the same serde object -- values that share
+            # objects with the refused one or repeat an object inside themselves: nothing of the failed call may stick
+            shared = ["s", 1, b"b"]
+            try:
+                sd.serialize("k", [shared, lambda: 0, shared])
+            except Exception:   # noqa -- refusing is fine; what follows is the subject
+                pass
+            for nv in ([shared, shared, {"again": shared}], shared, (shared, [shared])):
+                evs.append(observe(sd, comp, decomp if g["wrap"] else (lambda b: b), inner, nv, g["wrap"]))
+                pts.append((dict(g, cls="after-refused"), repr(nv)[:60]))
+    # text with characters that codecs like to treat specially at the start or the end
+    for proto in (0, 2, 5):
+        inner = S.PickleSerde(pickle_version=proto)
+        for wrap in (False, True):
+            comp, decomp = CODECS["zlib"]
+            sd = S.CompressedSerde(compress=comp, decompress=decomp, serde=inner, min_compress_len=3) if wrap else inner
+            for tv in ("\ufeff", "\ufeffabc", "abc\ufeff", "\ufeff\ufeff", "\ufffe", "\x00lead", " lead ", "\r\nlead", "\udcff".encode("utf8", "surrogatepass").decode("utf8", "ignore") or "x",
+                       "\ufeff" * 40, b"\xef\xbb\xbfbytes-with-a-signature", b"\xff\xfe", 0, -0, -1250, -5, 255, 256, 257):
+                evs.append(observe(sd, comp, decomp if wrap else (lambda b: b), inner, tv, wrap))
+                pts.append(({"cls": "special-text" if isinstance(tv, str) else "special-" + type(tv).__name__, "wrap": wrap, "proto": proto,
+                             "codec": "zlib", "min": 3, "size": "n/a", "comp": "n/a"}, repr(tv)[:60]))
     B = 500
     traces = [{"h": {"maxrej": B + 1}, "ev": evs[i:i + B]} for i in range(0, len(evs), B)]
     acc, rej, st, _ = tlc.validate_traces("SerdeTrace", traces, chunk=100)
